@@ -192,7 +192,8 @@ Fixpoint exec (fuel : nat) (tbl : optable) (cx : ctx) (p : program) (s : st) : l
                        (fst r, match snd r with Returned => Normal | x => x end))
                     (exec f tbl (default_args cx) body s)
             end
-        | SAwaitHook _ => [(s, Normal)]
+        | SAwaitHook _ => [(s, Normal); (s, Raised X_ENV)]      (* a listener may raise *)
+        | SEncodeMetadata => [(s, Normal); (s, Raised X_ENV)]   (* invalid user metadata *)
         | SHelper _ => [(s, Normal); (s, Raised X_ENV)]
         | SResetNowait =>
             if h2_exists (h2 s) then [(emit s FRst H2Closed, Normal)] else [(s, Raised X_H2)]
